@@ -138,6 +138,38 @@ def oracle_gemini(ctx, base, logical):
             ctx.fail({"builder": "gemini.logical", "problem": "constant", "fact": what}, rep, f"published constant disagrees with the geometry: {what}")
 
 
+def builder_histories(ctx):
+    """what a builder returns does not depend on which builders were called before it, and a value already
+    returned is not changed by later calls (every ordered pair of builders, each called before and after the other)"""
+    import copy
+    from bloqade.shuttle.stdlib.layouts import single_col_zone, two_col_zone
+    from bloqade.shuttle.stdlib.layouts.gemini import base_spec, logical
+    from bloqade.shuttle.stdlib import spec as old_spec
+    B = {"gemini.base_spec.get_base_spec()": base_spec.get_base_spec, "gemini.logical.get_spec()": logical.get_spec,
+         "single_col_zone.get_spec(2,3,2.0)": lambda: single_col_zone.get_spec(2, 3, 2.0),
+         "two_col_zone.get_spec(2,2,8.0,2.0)": lambda: two_col_zone.get_spec(2, 2, 8.0, 2.0),
+         "stdlib.spec.single_zone_spec(2,3,2.0)": lambda: old_spec.single_zone_spec(2, 3, 2.0)}
+    first = {n: show_spec(f()) for n, f in B.items()}          # each builder's value the first time it is called in this run
+    for n1, f1 in B.items():
+        for n2, f2 in B.items():
+            held = f1()
+            snap = show_spec(held)
+            f2()
+            again = f1()
+            ctx.evaluations += 1
+            rep = {"builder": n1, "history": [n1, n2, n1]}
+            if show_spec(held) != snap:
+                ctx.fail({"builder": n1.split("(")[0], "problem": "returned value changed by a later builder call", "later": n2.split("(")[0]}, rep,
+                         f"the spec returned by {n1} changed while the caller held it, after {n2} was called")
+            if show_spec(again) != first[n1] or snap != first[n1]:
+                ctx.fail({"builder": n1.split("(")[0], "problem": "result depends on call history", "after": n2.split("(")[0]}, rep,
+                         f"{n1} returns a different spec after {n2} has been called than it did at first")
+            if again is held or again.layout is held.layout or again.layout.static_traps is held.layout.static_traps:
+                ctx.fail({"builder": n1.split("(")[0], "problem": "two calls return the same mutable object"}, rep,
+                         f"two calls of {n1} return the same object (tables shared between callers)")
+    ctx.nt("builder-histories")
+
+
 def run(ctx):
     warnings.simplefilter("ignore")
     from bloqade.shuttle.stdlib.layouts import single_col_zone, two_col_zone
@@ -172,6 +204,7 @@ def run(ctx):
                 cases.append((f"show_spec (two_col_spec {cnat(nx)} {cnat(ny)} {cQ(s)} {cQ(gs)})", show_spec(T), f"two_col({nx},{ny},{s},{gs})"))
                 ctx.evaluations += 1
                 ctx.nt(("two_col", nx, ny, s, gs))
+    builder_histories(ctx)
     B, Lg = base_spec.get_base_spec(), logical.get_spec()
     oracle_gemini(ctx, B, Lg)
     cases.append(("show_spec gemini_base_spec", show_spec(B), "gemini base"))
